@@ -706,6 +706,19 @@ def rule_r15(prog, res):
     res.floor('R15', 'published pattern declarations', n_pat, 8)
 
 
+def rule_r16(prog, res):
+    from . import c01, c05
+    from ..report import Result
+    txt = ('documents spyne emits are valid against the schema it publishes: '
+           'root named after the message, text as text (C01-R14); soft '
+           'validation decides patterns like the schema (C05-R4) and '
+           'validates the delivered value (C05-R18); edge literals (C08-R20)')
+    res.share('R16', txt, 'C01', c01.rule_r14, prog, Result)
+    res.share('R16', txt, 'C05', c05.rule_r4, prog, Result)
+    res.share('R16', txt, 'C05', c05.rule_r18, prog, Result)
+    res.share('R16', txt, 'C08', c08.rule_r20, prog, Result)
+
+
 def run(prog, res, tier):
     res.run_rule(rule_r1, prog, res)
     res.run_rule(rule_r2, prog, res)
@@ -722,6 +735,7 @@ def run(prog, res, tier):
     res.run_rule(rule_r13, prog, res)
     res.run_rule(rule_r14, prog, res)
     res.run_rule(rule_r15, prog, res)
+    res.run_rule(rule_r16, prog, res)
 
 
 _M = 'spyne/interface/xml_schema/model.py'
